@@ -12,6 +12,14 @@
 (*   the pinned behaviour; "total": the signed total number of seconds.    *)
 (* KeepMicro = FALSE: the text forms have second precision (the pinned     *)
 (*   behaviour); TRUE: a 6-digit fraction is written when it is not zero.  *)
+(* Tag objects.  The typed values are written as one-key JSON objects      *)
+(* {"type{date}": "2020-01-02"}; ordinary dicts are written as they are,   *)
+(* with no escaping.  A USER dict that happens to have that shape (kind    *)
+(* "tagobj-date" / "tagobj-time" / "tagobj-dec": a dict inside an object,  *)
+(* array or any cell) is therefore written exactly like the typed value    *)
+(* and read back AS the typed value: the encoding is not injective.  TLC   *)
+(* refutes RoundTripAll on Catalogue \cup TagObjects and proves that tag    *)
+(* objects are the only cells of the catalogue that do not round-trip.     *)
 (***************************************************************************)
 EXTENDS Integers, Sequences, FiniteSets, TLC
 
@@ -33,7 +41,14 @@ Frac(s, from) == IF Len(s) >= from + 6 /\ s[from] = Dot THEN Num(s, from + 1, fr
 
 OffsetField(off) == IF OffsetAs = "seconds" THEN (off + 86400) % 86400 ELSE off
 
-Encode(v) ==
+IsTagObj(v) == v.kind \in {"tagobj-date", "tagobj-time", "tagobj-dec"}
+\* the typed value a tag object is mistaken for
+Base(v) == CASE v.kind = "tagobj-date" -> [v EXCEPT !.kind = "date"]
+             [] v.kind = "tagobj-time" -> [v EXCEPT !.kind = "time"]
+             [] v.kind = "tagobj-dec" -> [v EXCEPT !.kind = "dec"]
+             [] OTHER -> v
+
+EncodeTyped(v) ==
   CASE v.kind = "date" -> [tag |-> "type{date}", txt |-> DateTxt(v), has_ofs |-> FALSE, ofs |-> 0, has_tz |-> FALSE]
     [] v.kind = "time" -> [tag |-> "type{time}", txt |-> TimeTxt(v), has_ofs |-> FALSE, ofs |-> 0, has_tz |-> FALSE]
     [] v.kind = "dt"   -> [tag |-> "type{datetime}", txt |-> DateTxt(v) \o <<TeeCh>> \o TimeTxt(v),
@@ -41,6 +56,8 @@ Encode(v) ==
     [] v.kind = "dec"  -> [tag |-> "type{decimal}", txt |-> v.txt, has_ofs |-> FALSE, ofs |-> 0, has_tz |-> FALSE]
     [] v.kind = "dur"  -> [tag |-> "type{duration}", txt |-> v.txt, has_ofs |-> FALSE, ofs |-> 0, has_tz |-> FALSE]
     [] OTHER           -> [tag |-> "plain", txt |-> v.txt, has_ofs |-> FALSE, ofs |-> 0, has_tz |-> FALSE]
+\* a user dict is written as it is: one that looks like a typed value gives the very same bytes
+Encode(v) == EncodeTyped(Base(v))
 
 Zero == [kind |-> "null", y |-> 0, m |-> 0, d |-> 0, h |-> 0, mi |-> 0, s |-> 0, us |-> 0, aware |-> FALSE, off |-> 0, txt |-> <<>>]
 Decode(w, kind) ==
@@ -56,7 +73,7 @@ Decode(w, kind) ==
 
 RoundTrip(v) == Decode(Encode(v), v.kind) = v
 \* what the pinned codec returns for a value: sub-second part dropped, offset through the unsigned seconds field
-Deviation(v) == LET a == IF KeepMicro THEN v ELSE [v EXCEPT !.us = 0]
+Deviation(v) == LET a == IF KeepMicro THEN Base(v) ELSE [Base(v) EXCEPT !.us = 0]
                 IN IF v.kind = "dt" /\ v.aware THEN [a EXCEPT !.off = OffsetField(v.off)] ELSE a
 
 \* the boundary catalogue the model checks (MC instance)
@@ -67,12 +84,18 @@ Catalogue ==
   \cup {DT(y, 12, 31, 23, 59, 59, us, FALSE, 0) : y \in {1, 2024}, us \in {0, 999999}}
   \cup {[Zero EXCEPT !.kind = "date", !.y = y, !.m = 2, !.d = 29] : y \in {4, 2000, 9996}}
   \cup {[Zero EXCEPT !.kind = "time", !.h = h, !.mi = 0, !.s = 59, !.us = us] : h \in {0, 12, 23}, us \in {0, 500000}}
+TagObjects == {[Zero EXCEPT !.kind = "tagobj-date", !.y = 2020, !.m = 1, !.d = 2],
+               [Zero EXCEPT !.kind = "tagobj-time", !.h = 1, !.mi = 2, !.s = 3],
+               [Zero EXCEPT !.kind = "tagobj-dec", !.txt = <<49, 46, 53>>]}
 SecondPrecision(v) == v.us = 0
+CONSTANT WithTagObjects
 VARIABLE v
-Init == v \in Catalogue
+Init == v \in (IF WithTagObjects THEN Catalogue \cup TagObjects ELSE Catalogue)
 Next == UNCHANGED v
 Spec == Init /\ [][Next]_v
 \* C07 (value part): what comes back from a checkpoint is what went in
 RoundTripAll == RoundTrip(v)
 RoundTripSeconds == SecondPrecision(v) => RoundTrip(v)
+RoundTripUnlessTagObject == ~IsTagObj(v) => RoundTrip(v)
+TagObjectComesBackTyped == IsTagObj(v) => Decode(Encode(v), v.kind) = Base(v)
 =============================================================================
